@@ -47,7 +47,12 @@ func imp(n string) string { return `module ` + n + ` { ` + H(n) + ` import a { p
 func Scenarios() (names []string, files [][]dump.File) {
 	for _, s := range scenarios() {
 		names = append(names, s.name)
-		files = append(files, s.files)
+		// for the other checks the modules that C05 leaves on the search path are plain members of the set
+		var fs []dump.File
+		for _, f := range s.files {
+			fs = append(fs, dump.File{Name: strings.TrimPrefix(f.Name, "PATH/"), Text: f.Text})
+		}
+		files = append(files, fs)
 	}
 	return
 }
